@@ -2,8 +2,8 @@
 from reg._common import COMMON_ASSUME
 
 ENTRY = {
-    'lean_files': ['Tables/C02.lean', 'Props/C02.lean', 'Props/C02Pipeline.lean', 'Props/C02Concrete.lean'],
-    'lemma_files': ['Lemmas/Solve2x2.lean', 'Lemmas/Lipschitz.lean', 'Lemmas/EvalBary.lean', 'Lemmas/Bridge.lean',
+    'lean_files': ['Tables/C02.lean', 'Props/C02.lean', 'Props/C02Pipeline.lean', 'Props/C02Concrete.lean', 'Props/C02Newton.lean'],
+    'lemma_files': ['Lemmas/NewtonGate.lean', 'Model/Newton.lean', 'Lemmas/Solve2x2.lean', 'Lemmas/Lipschitz.lean', 'Lemmas/EvalBary.lean', 'Lemmas/Bridge.lean',
                     'Lemmas/Shift.lean', 'Lemmas/VS.lean', 'Model/Solve2x2.lean', 'Model/Curve.lean', 'Model/Basic.lean'],
     'script': 'props/c02.py',
     'rule': 'cases = (ordered pair of planar control nets of degree 1..8, strategy GEOMETRIC|ALGEBRAIC, route Curve.intersect | '
